@@ -699,6 +699,13 @@ fn scene_from_xml(root: &Elem, s: &mut Scene, r: &mut Report) {
                     }
                 };
                 if let Some(pr) = p.child(E57_NS, "prototype") {
+                    let recs: Vec<_> = pr.child_elems().collect();
+                    for (k, rc) in recs.iter().enumerate() {
+                        // the children of a Structure are identified by their names: no name twice
+                        if recs[..k].iter().any(|o| o.ns == rc.ns && o.local == rc.local) {
+                            r.p("R4", format!("{w2}/prototype/{} occurs more than once", rc.local));
+                        }
+                    }
                     for rc in pr.child_elems() {
                         let w3 = format!("{w2}/prototype/{}", rc.local);
                         let Some(ty) = ty_from_elem(rc, &w3, r) else { continue };
